@@ -754,17 +754,20 @@ class ReadSetReader:
                 ):
                     return None, None
 
-            if right_ref_bases < len(variant.reference_allele) + overhang:
-                # The alignment ends inside the window. If it ends within the stretch along
-                # which an insertion or deletion can be shifted to the right without changing
-                # the haplotype (a homopolymer or tandem repeat behind the variant), the bases
-                # of the read are the same with and without the indel: a read mapper aligns such
-                # a read without the gap, and the read cannot tell the alleles apart
-                shift = max(
-                    ReadSetReader.shift_range(reference, variant, alt, overhang)
-                    for alt in variant.get_alt_allele_list()
+            # If the alignment ends within the stretch along which an insertion or deletion can be
+            # shifted to the right without changing the haplotype (a homopolymer or tandem repeat
+            # behind the variant, possibly longer than the window), the bases of the read are
+            # the same with and without the indel: a read mapper aligns such a read without the
+            # gap, and the read cannot tell the alleles apart
+            for alt in variant.get_alt_allele_list():
+                shift = ReadSetReader.shift_range(reference, variant, alt, 1000)
+                if shift == 0:
+                    continue
+                stretch = min(len(variant.reference_allele), len(alt)) + shift
+                reach, _ = ReadSetReader.cigar_prefix_length(
+                    ReadSetReader.split_cigar_right(cigartuples, i, consumed), stretch + 1
                 )
-                if right_ref_bases < len(variant.reference_allele) + shift:
+                if reach <= stretch:
                     return None, None
 
             query = bam_read.query_sequence[
